@@ -46,10 +46,11 @@ type vConn struct {
 	frames  [][]byte // payloads, in the order their second half was written
 	nframes int
 	raw     [][]byte
+	wrote   chan struct{} // receives a token after every complete frame written by the gateway (buffered)
 }
 
 func vNewConn(name string) *vConn {
-	return &vConn{name: name, in: make(chan []byte), closeCh: make(chan struct{})}
+	return &vConn{name: name, in: make(chan []byte), closeCh: make(chan struct{}), wrote: make(chan struct{}, 64)}
 }
 
 func (c *vConn) Read(p []byte) (int, error)  { return 0, io.EOF }
@@ -90,6 +91,10 @@ func verifWsWrite(w io.Writer, p []byte) error {
 	}
 	c.halves = append(c.halves, vHalf{id, true})
 	c.frames = append(c.frames, p)
+	select {
+	case c.wrote <- struct{}{}:
+	default:
+	}
 	return nil
 }
 
